@@ -5,7 +5,7 @@ from .. import core, posecase as pc, refenc, bodyexec
 from ..mtexec import f64_bits, bits_f64
 
 RULE = ("v0.2 files with 1..4 coordinate dimensions, 0..3 people, 0..4 frames, confidences incl. −0.0, negative, NaN, subnormal; each read into NumPyPoseBody, TorchPoseBody and TensorflowPoseBody, "
-        "converted from the NumPy body with torch() / tensorflow(), and (files with ≥ 2 frames) read as a frame window from a stream straight into each class; then a random sequence of the shared operations (get_points, select_frames, slice_step, matmul with a square matrix, zero_filled, copy, flatten) "
+        "converted from the NumPy body with torch() / tensorflow(), and (files with ≥ 2 frames) read as a frame window from a stream straight into each class; then a random sequence of the shared operations (get_points, select_frames, frame slices body[a:b:step] with bounds on both sides of 0 and of the frame count, slice_step, matmul with a square matrix, zero_filled, copy, flatten) "
         "on every backend that offers them; views (shape, fps, confidences, missing pattern, zero-filled coordinates) compared pairwise (oracle) and with the Lean model; tensorflow runs in a child process; "
         "non-trivial = file with ≥ 1 point and ≥ 1 frame, distinct by (file, route, ops)")
 ASSUMPTIONS = ["tensorflow CPU kernels flush subnormal numbers to zero: subnormal confidences are not generated (they would be 'zero' for tensorflow only); flatten() of an empty body raises on NumPy and torch alike and is not generated",
@@ -13,9 +13,26 @@ ASSUMPTIONS = ["tensorflow CPU kernels flush subnormal numbers to zero: subnorma
                "in this sandbox tf.matmul of a rank-4 tensor with batch shape (F > 1, 1) by a rank-2 matrix aborts the interpreter: tensorflow matmul is exercised with people ≥ 2 or one frame only",
                "values are compared within 1e-5 relative after arithmetic (matmul, fps division); exactly otherwise"]
 
-OPS_BY_BACKEND = {"numpy": {"get_points", "select_frames", "slice_step", "matmul", "zero_filled", "copy", "flatten"},
-                  "torch": {"get_points", "select_frames", "slice_step", "matmul", "zero_filled", "copy", "flatten"},
-                  "tf": {"get_points", "select_frames", "slice_step", "matmul", "zero_filled", "copy"}}
+OPS_BY_BACKEND = {"numpy": {"get_points", "select_frames", "slice_step", "slice", "matmul", "zero_filled", "copy", "flatten"},
+                  "torch": {"get_points", "select_frames", "slice_step", "slice", "matmul", "zero_filled", "copy", "flatten"},
+                  "tf": {"get_points", "select_frames", "slice_step", "slice", "matmul", "zero_filled", "copy"}}
+
+
+def slice_indexes(op, f):
+    return list(range(*slice(op["a"], op["b"], op["step"]).indices(f)))
+
+
+def model_ops(ops, f):
+    """the model's instruction list: a Python slice is the selection of the frames `slice.indices` names"""
+    out = []
+    for o in ops:
+        if o["k"] == "slice":
+            ixs = slice_indexes(o, f); out.append({"k": "select_frames", "ixs": ixs}); f = len(ixs)
+        else:
+            out.append(o)
+            if o["k"] == "select_frames": f = len(o["ixs"])
+            elif o["k"] == "slice_step": f = (f + o["by"] - 1) // o["by"]
+    return out
 
 
 def gen_case(rng):
@@ -33,7 +50,7 @@ def gen_case(rng):
     ops = []
     f, n = F, N
     for _ in range(rng.randint(0, 4)):
-        k = rng.choice(["get_points", "select_frames", "slice_step", "matmul", "zero_filled", "copy", "flatten"])
+        k = rng.choice(["get_points", "select_frames", "slice_step", "slice", "matmul", "zero_filled", "copy", "flatten"])
         if k == "get_points" and n > 0 and f > 0 and P > 0:
             ixs = [rng.randrange(n) for _ in range(rng.randint(1, 4))]; ops.append({"k": k, "ixs": ixs}); n = len(ixs)
         elif k == "select_frames" and f > 0:
@@ -43,6 +60,10 @@ def gen_case(rng):
             ops.append({"k": k, "ixs": ixs}); f = len(ixs)
         elif k == "slice_step":
             by = rng.choice([1, 2, 3]); ops.append({"k": k, "by": by}); f = (f + by - 1) // by
+        elif k == "slice":
+            bound = lambda: rng.choice([None, 0, 1, -1, -2, f, f + 2, -f, -f - 1, rng.randint(-f - 1, f + 1)])
+            op = {"k": k, "a": bound(), "b": bound(), "step": rng.choice([None, 1, 1, 2, 3])}
+            ops.append(op); f = len(slice_indexes(op, f))
         elif k == "matmul" and (P >= 2 or f <= 1) and P > 0 and n > 0 and f > 0:
             m = [[float(rng.randint(-2, 2)) for _ in range(dims)] for _ in range(dims)]
             fam = rng.random()
@@ -72,6 +93,8 @@ def close_bits(a, b, exact, f32_overflow=False, scale=1.0):
     x, y = bits_f64(a), bits_f64(b)
     if f32_overflow and not exact and (not math.isfinite(x) or not math.isfinite(y) or abs(x) > 1e30 or abs(y) > 1e30):
         return True
+    if not exact and not math.isfinite(x) and not math.isfinite(y):
+        return True        # after arithmetic both sides left the binary32 range: inf, −inf and NaN (inf − inf in another summation order) all say "overflowed"
     if math.isnan(x) or math.isnan(y):
         return math.isnan(x) and math.isnan(y)
     if exact:
@@ -165,7 +188,7 @@ def run(ctx):
         for c in cases:
             b = c["case"]["body"]
             f64 = lambda bits: [f64_bits(float(x)) for x in np.array(bits, dtype=np.uint32).view(np.float32)]
-            reqs.append({"op": "body_ops", "backend": be, "body": {"fps": f64([b["fps"]["f32"]])[0], "shape": c["shape"], "data": f64(b["data"]), "conf": f64(b["conf"])}, "ops": c["ops"]})
+            reqs.append({"op": "body_ops", "backend": be, "body": {"fps": f64([b["fps"]["f32"]])[0], "shape": c["shape"], "data": f64(b["data"]), "conf": f64(b["conf"])}, "ops": model_ops(c["ops"], c["shape"][0])})
         model[be] = ctx.driver.run(reqs)
     for i, c in enumerate(cases):
         info = {"file_hex": c["hex"] if len(c["hex"]) < 4000 else None, "shape": c["shape"], "route": c["route"], "window": c.get("window"), "ops": c["ops"]}
@@ -191,7 +214,8 @@ def run(ctx):
             if stop:
                 break
             for be in avail[1:]:
-                ok, why = same_view(steps[avail[0]][n], steps[be][n], exact)
+                nm = sum(1 for o in c["ops"][:n] if o["k"] == "matmul")
+                ok, why = same_view(steps[avail[0]][n], steps[be][n], exact, scale=c["maxabs"] * (8.0 ** nm) if c["maxabs"] < 1e30 else 1.0)
                 if not ok:
                     ctx.violation("backends disagree", info, {"step": n, "operation": opname, "backends": [avail[0], be], "what": why}, True, size=len(c["hex"]), signature={"op": opname, "what": why})
                     stop = True
